@@ -18,12 +18,13 @@ from .common import REPO
 _CALLS = [0]
 
 
-def rules():
+def rules(pos=None):
     from mathy_core.rules import (AssociativeSwapRule, BalancedMoveRule, CommutativeSwapRule, ConstantsSimplifyRule,
                                   DistributiveFactorOutRule, DistributiveMultiplyRule, MultiplicativeInverseRule,
                                   RestateSubtractionRule, VariableMultiplyRule)
     _CALLS[0] += 1
-    pos = _CALLS[0] % 2 == 0          # the documented options are given by keyword and positionally in turn
+    if pos is None:
+        pos = _CALLS[0] % 2 == 0      # the documented options are given by keyword and positionally in turn
     return [("assoc", "", AssociativeSwapRule()), ("comm", "pref", CommutativeSwapRule(True) if pos else CommutativeSwapRule()),
             ("comm", "nopref", CommutativeSwapRule(False) if pos else CommutativeSwapRule(preferred=False)), ("fold", "", ConstantsSimplifyRule()),
             ("factor", "", DistributiveFactorOutRule(False) if pos else DistributiveFactorOutRule()),
@@ -101,7 +102,7 @@ def reparse(printed):
         p = _REPARSER["p"] = ExpressionParser()
         _REPARSER["n"] = 0
     _REPARSER["n"] += 1
-    if _REPARSER["n"] % 2:
+    if common.pick(printed, 2):
         for v in (" ".join(printed.replace(" ", "")), printed.replace(" ", ""), printed.upper(), printed.replace(" ", "  "), printed + " "):
             if v != printed:
                 try:
@@ -248,9 +249,8 @@ def probe_event(t0, name, opt, rule, text=""):
 
 def print_event(text):
     """str(parse(text)) parsed back with the real parser"""
-    _NOISE[0] += 1
-    if _NOISE[0] % 40 == 1:
-        common.process_noise(_NOISE[0] // 40)
+    if common.pick(text, 40) == 0:
+        common.process_noise(common.pick(text, 997))
     try:
         t0 = parse(text)
     except BaseException:  # noqa
@@ -307,9 +307,8 @@ _NOISE = [0]
 
 
 def events_for_text(job):
-    _NOISE[0] += 1
-    if _NOISE[0] % 25 == 1:
-        common.process_noise(_NOISE[0] // 25)
+    if common.pick(job[0], 25) == 0:
+        common.process_noise(common.pick(job[0], 997))
     return _events_for_text(job)
 
 
@@ -324,7 +323,7 @@ def _events_for_text(job):
     except BaseException:  # noqa
         return []
     out = []
-    persistent = rules()
+    persistent = rules(pos=bool(common.pick(text, 2)))
     n = len(inorder(t0))
     firsts = []
     for name, opt, rule in persistent:
